@@ -26,9 +26,6 @@ theorem StatLe.trans {x y z : Activity} (h1 : StatLe x y) (h2 : StatLe y z) : St
   · right; exact ⟨a5, by rw [b5, a6]⟩
   · rw [a6] at b5; cases b5
 
-/-- every entry of the failed action set has an action -/
-def QOK (t : St) : Prop := ∀ j, j ∈ t.failedQ → (t.acts j).action ≠ none
-
 /-- activity `k` is hit by a resource failure: whenever `finish` runs on it from now on, it ends in the failure state of
 the spec table (comm: an endpoint host is off or the action failed; exec: a host is off and the action is still there) -/
 def Hit (t : St) (k : Nat) : Prop :=
@@ -70,14 +67,13 @@ theorem hit_comm_netclass (t : St) (k : Nat) (hk : (t.acts k).kind = .comm) (h :
   · rw [hk] at hk'; cases hk'
 
 /-- the pending situation: `a` is answerable, registered on `k`, `k` is hit, sits in the failed action set, `r` is the
-answer of the spec table for `k`; and the failed action set is well formed -/
+answer of the spec table for `k` -/
 structure PendS (t : St) (a k : Nat) (r : Ans) : Prop where
   ans : Answerable t a
   reg : a ∈ (t.acts k).simcalls
   hit : Hit t k
   inq : k ∈ t.failedQ
   spec : r = .exc (specExc (t.acts k).kind)
-  qok : QOK t
 
 /-- outcome of a function run from `t` to `t'`: `a` answered by `k` with `r`, or answered by another activity of its
 wait_any, or an assertion fired, or the situation is still pending -/
@@ -103,12 +99,11 @@ structure Simp (a : Nat) (t t' : St) : Prop where
   simc : ∀ j, (t'.acts j).simcalls = (t.acts j).simcalls
   stat : ∀ j, StatLe (t.acts j) (t'.acts j)
   fq : ∀ j, j ∈ t.failedQ → j ∈ t'.failedQ
-  qok : QOK t → QOK t'
 
-theorem Simp.refl (a : Nat) (t : St) : Simp a t t := ⟨Ext.refl t, rfl, fun _ => rfl, fun _ => StatLe.refl _, fun _ h => h, id⟩
+theorem Simp.refl (a : Nat) (t : St) : Simp a t t := ⟨Ext.refl t, rfl, fun _ => rfl, fun _ => StatLe.refl _, fun _ h => h⟩
 theorem Simp.trans {a : Nat} {t t1 t2 : St} (h1 : Simp a t t1) (h2 : Simp a t1 t2) : Simp a t t2 :=
   ⟨h1.ext.trans h2.ext, by rw [h2.core, h1.core], fun j => by rw [h2.simc, h1.simc],
-   fun j => (h1.stat j).trans (h2.stat j), fun j h => h2.fq j (h1.fq j h), fun h => h2.qok (h1.qok h)⟩
+   fun j => (h1.stat j).trans (h2.stat j), fun j h => h2.fq j (h1.fq j h)⟩
 
 theorem pend_of_simp {a k : Nat} {r : Ans} {t t' : St} (h : Simp a t t') (p : PendS t a k r) : PendS t' a k r where
   ans := by rw [answerable_iff_core, h.core, ← answerable_iff_core]; exact p.ans
@@ -116,7 +111,6 @@ theorem pend_of_simp {a k : Nat} {r : Ans} {t t' : St} (h : Simp a t t') (p : Pe
   hit := hit_mono (h.stat k) h.ext.hostOn p.hit
   inq := h.fq k p.inq
   spec := by rw [(h.stat k).1]; exact p.spec
-  qok := h.qok p.qok
 
 theorem res_of_simp {a k : Nat} {r : Ans} {t t' : St} (h : Simp a t t') (p : PendS t a k r) : Res t t' a k r :=
   Or.inr (Or.inr (Or.inr (pend_of_simp h p)))
@@ -124,26 +118,22 @@ theorem res_of_simp {a k : Nat} {r : Ans} {t t' : St} (h : Simp a t t') (p : Pen
 /-! ### the simple functions -/
 theorem simp_setAct_state (a : Nat) (t : St) (k : Nat) (st : AState) :
     Simp a t (t.setAct k (fun x => { x with state := st })) := by
-  refine ⟨ext_setAct _ _ _, rfl, fun j => ?_, fun j => ?_, fun _ h => h, fun q j hj => ?_⟩
+  refine ⟨ext_setAct _ _ _, rfl, fun j => ?_, fun j => ?_, fun _ h => h⟩
   · by_cases hj : j = k
     · subst hj; simp [St.setAct]
     · simp [St.setAct, upd, hj]
   · by_cases hj : j = k
     · subst hj; simp [St.setAct, StatLe]
     · simp [St.setAct, upd, hj, StatLe]
-  · have := q j hj
-    by_cases hjk : j = k
-    · subst hjk; simpa [St.setAct] using this
-    · simpa [St.setAct, upd, hjk] using this
 
 theorem simp_setActor_ne (a : Nat) (t : St) (b : Nat) (f : Actor → Actor) (hb : b ≠ a) : Simp a t (t.setActor b f) := by
-  refine ⟨ext_setActor _ _ _, ?_, fun _ => rfl, fun _ => StatLe.refl _, fun _ h => h, fun q => q⟩
+  refine ⟨ext_setActor _ _ _, ?_, fun _ => rfl, fun _ => StatLe.refl _, fun _ h => h⟩
   simp [coreOf, St.setActor, upd, Ne.symm hb]
 
 /-- updates of an actor record that leave `blocked`, `host`, `wannadie` alone -/
 theorem simp_setActor_frame (a : Nat) (t : St) (b : Nat) (f : Actor → Actor)
     (hf : ∀ x, (f x).blocked = x.blocked ∧ (f x).host = x.host ∧ (f x).wannadie = x.wannadie) : Simp a t (t.setActor b f) := by
-  refine ⟨ext_setActor _ _ _, ?_, fun _ => rfl, fun _ => StatLe.refl _, fun _ h => h, fun q => q⟩
+  refine ⟨ext_setActor _ _ _, ?_, fun _ => rfl, fun _ => StatLe.refl _, fun _ h => h⟩
   by_cases hb : a = b
   · subst hb
     obtain ⟨h1, h2, h3⟩ := hf (t.actors a)
@@ -156,13 +146,13 @@ theorem simp_eraseActivity (a : Nat) (t : St) (o : Option Nat) (k : Nat) : Simp 
   | some b => exact simp_setActor_frame a t b (fun x => { x with activities := x.activities.erase k }) (fun x => ⟨rfl, rfl, rfl⟩)
 
 theorem simp_crash (a : Nat) (t : St) : Simp a t t.crash :=
-  ⟨ext_crash t, rfl, fun _ => rfl, fun _ => StatLe.refl _, fun _ h => h, fun q => q⟩
+  ⟨ext_crash t, rfl, fun _ => rfl, fun _ => StatLe.refl _, fun _ h => h⟩
 
 theorem simp_failAction (a : Nat) (t : St) (k : Nat) : Simp a t (failAction t k) := by
   unfold failAction
   split
   · rename_i hst
-    refine ⟨⟨List.prefix_refl _, id, rfl⟩, rfl, fun j => ?_, fun j => ?_, fun j h => ?_, fun q j hj => ?_⟩
+    refine ⟨⟨List.prefix_refl _, id, rfl⟩, rfl, fun j => ?_, fun j => ?_, fun j h => ?_⟩
     · by_cases hj : j = k
       · subst hj; simp [St.setAct]
       · simp [St.setAct, upd, hj]
@@ -170,32 +160,19 @@ theorem simp_failAction (a : Nat) (t : St) (k : Nat) : Simp a t (failAction t k)
       · subst hj; simp [St.setAct, StatLe, hst]
       · simp [St.setAct, upd, hj, StatLe]
     · simp [h]
-    · by_cases hjk : j = k
-      · subst hjk; simp [St.setAct]
-      · have hj' : j ∈ t.failedQ := by
-          simp only [List.mem_append, List.mem_singleton] at hj
-          rcases hj with hj | hj
-          · exact hj
-          · exact absurd hj hjk
-        have := q j hj'
-        simpa [St.setAct, upd, hjk] using this
   · exact Simp.refl a t
 
 theorem simp_mboxRemove (a : Nat) (t : St) (k : Nat) : Simp a t (mboxRemove t k) := by
   unfold mboxRemove
   split
   · exact Simp.refl a t
-  · refine ⟨⟨List.prefix_refl _, id, rfl⟩, rfl, fun j => ?_, fun j => ?_, fun _ h => h, fun q j hj => ?_⟩
+  · refine ⟨⟨List.prefix_refl _, id, rfl⟩, rfl, fun j => ?_, fun j => ?_, fun _ h => h⟩
     · by_cases hj : j = k
       · subst hj; simp [St.setAct]
       · simp [St.setAct, upd, hj]
     · by_cases hj : j = k
       · subst hj; simp [St.setAct, StatLe]
       · simp [St.setAct, upd, hj, StatLe]
-    · have := q j hj
-      by_cases hjk : j = k
-      · subst hjk; simpa [St.setAct] using this
-      · simpa [St.setAct, upd, hjk] using this
 
 /-- `cancel` neither answers nor unregisters anybody -/
 theorem simp_cancel (a : Nat) (t : St) (k : Nat) : Simp a t (cancel t k) := by
